@@ -25,8 +25,10 @@ from .types import InterestNack, Validator, Route, DataTuple
 
 class NameTrie(Trie):
     def _path_from_key(self, key: FormalName) -> FormalName:
-        # bytes(x) will copy x if x is memoryview or bytearray but will not copy bytes
-        return [x if isinstance(x, memoryview) and x.readonly else bytes(x)
+        # bytes(x) will copy x if x is memoryview or bytearray but will not copy bytes.
+        # A view is kept only when it is a view of immutable bytes: a read-only view of a bytearray
+        # still follows the writes of whoever owns that buffer.
+        return [x if isinstance(x, memoryview) and x.readonly and isinstance(x.obj, bytes) else bytes(x)
                 for x in key]
 
     def _key_from_path(self, path: FormalName) -> FormalName:
